@@ -10,11 +10,13 @@ def S(ctx):
     return ctx.cache["sym"]
 
 
-def states(ctx, f, split=None, unroll=1, until=None):
+def states(ctx, f, split=None, unroll=None, until=None):
     """Yield (path, state) for every feasible state of every path of f.
     `until(ev)` truncates the path before the first event for which it is true."""
     eng = S(ctx)
     from .walk import Path
+    if unroll is None:
+        unroll = getattr(ctx, "unroll", 1)
     for p in ctx.X.paths(f, unroll):
         q = p
         if until is not None:
@@ -27,10 +29,12 @@ def states(ctx, f, split=None, unroll=1, until=None):
             yield q, st
 
 
-def states_init(ctx, f, init, split=None, unroll=1, until=None):
+def states_init(ctx, f, init, split=None, unroll=None, until=None):
     """Like states() with an initial State (facts about parameters from the call sites)."""
     eng = S(ctx)
     from .walk import Path
+    if unroll is None:
+        unroll = getattr(ctx, "unroll", 1)
     for p in ctx.X.paths(f, unroll):
         q = p
         if until is not None:
